@@ -522,14 +522,22 @@ def judge_acc(inp, obs, lr):
 # =====================================================================================
 # corr: free automaton, freely reduced elements, free_words_*
 # =====================================================================================
-def gen_free(rng, n):
+LONG_NAME_SETS = [["x1", "x2"], ["ab", "c"], ["gen1", "gen2", "g"], ["s0", "s1", "s2"], ["word1"], ["aa", "a"], ["ab", "ba"]]
+
+
+def gen_free(rng, n, long_names=True):
     for i in range(n):
         names = list(rng.choice(["a", "ab", "abc", "xy", "ba", "abcd"]))
+        simple = True
+        if long_names and rng.random() < 0.25:
+            # multi-character generator names (parse_simple=False): the model's generators are strings, so the free automaton,
+            # its language and the '*'-joined words are compared with the model for these too (wave 6)
+            names, simple = list(rng.choice(LONG_NAME_SETS)), False
         if len(names) == 4:
             L = rng.randint(0, 2)
         else:
             L = rng.randint(0, {1: 6, 2: 4, 3: 3}[len(names)])
-        spec = H.rand_spec(rng, ring="Q", simple=True, n=rng.choice([1, 2, 3]), names=names, reassign=rng.random() < 0.3,
+        spec = H.rand_spec(rng, ring="Q", simple=simple, n=rng.choice([1, 2, 3]), names=names, reassign=rng.random() < 0.3,
                            kind=rng.choice(["uni", "orth", "diag"]))
         yield {"spec": spec, "L": L, "maxlen": rng.random() < 0.6, "with_words": rng.random() < 0.8}
 
@@ -748,7 +756,6 @@ def judge_freeo(inp, obs, lr):
 # (wave 6: free_automaton compared a generator with the *reversed, letter-wise* inverse of another one, which is the
 #  inverse generator only for one-letter names)
 # =====================================================================================
-LONG_NAME_SETS = [["x1", "x2"], ["ab", "c"], ["gen1", "gen2", "g"], ["s0", "s1", "s2"], ["word1"], ["aa", "a"], ["ab", "ba"]]
 
 
 def gen_free_long(rng, n):
@@ -1031,7 +1038,7 @@ CLAUSES = [
            site="Representation.freely_reduced_elements / fsa.free_automaton (multi-character generator names)",
            budget={"quick": 40, "thorough": 600},
            what="parse_simple=False representations whose generators have multi-character names (x1, gen2, ab/ba, aa/a): freely_reduced_elements returns every tuple of generators without a generator next to its own inverse exactly once ('*'-joined), with its image"),
-    Clause("free_oracle", "oracle", gen_free, run_freeo, judge_freeo, site="Representation.freely_reduced_elements",
+    Clause("free_oracle", "oracle", lambda rng, n: gen_free(rng, n, long_names=False), run_freeo, judge_freeo, site="Representation.freely_reduced_elements",
            budget={"quick": 100, "thorough": 4500},
            what="freely_reduced_elements / free_words_of_length return each freely reduced word exactly once, with its image"),
     Clause("coxeter_oracle", "oracle", gen_cox, run_cox, judge_cox, site="CoxeterGroup.canonical_representation / automaton",
